@@ -74,9 +74,19 @@ LocateOK(cs, res, max, E) ==
   /\ (dup \/ \A j1, j2 \in 1..Len(R) : j1 < j2 => R[j1].loc # R[j2].loc)
   /\ IF max = 0 THEN (\A q \in 1..Len(L) : \E j \in 1..Len(R) : R[j].loc = L[q]) /\ Len(R) <= Len(L)
      ELSE Len(R) = Min2(max, Len(L)) \/ (dup /\ Len(R) = Min2(max, NDistinct(L)))
+(* Known defect C11-2 made precise: a Locate / Walk answer that is wrong is classified "as-implemented" (locus          *)
+(* slice/startEndStep-reading) only when it is EXACTLY what the path denotes if every slice is read with               *)
+(* JsonPath!StartEndStepIdx; any other wrong answer in the same cell is an ordinary deviation.                        *)
+SESPath(cs) == [i \in 1..Len(cs.path) |-> IF cs.path[i].f = "slice" THEN WithOv(cs.path[i], StartEndStepIdx, MaxArrLen(cs.data))
+                                          ELSE cs.path[i]]
+ESes(cs) == Locs(SESPath(cs), cs.data)
+DevImpl(cs, g, ev) == [i |-> cur, as |-> g.as, ev |-> ev, kind |-> "as-implemented", m |-> "",
+                       loc |-> [frag |-> "slice", pos |-> "startEndStep-reading", cont |-> "-", pre |-> "-", bound |-> <<"-">>]]
 LocateDev(cs, g, res, max, ev, E) ==
   IF res.p THEN Abn(cs, g, ev, res)
-  ELSE IF LocateOK(cs, res, max, E) THEN <<>> ELSE << Dev(cs, g, ev, "wrong-locations", "") >>
+  ELSE IF LocateOK(cs, res, max, E) THEN <<>>
+  ELSE IF HasSlice(cs.path) /\ LocateOK(cs, res, max, ESes(cs)) THEN << DevImpl(cs, g, ev) >>
+  ELSE << Dev(cs, g, ev, "wrong-locations", "") >>
 
 WalkOK(cs, res, E) ==
   LET R == [j \in 1..Len(res.r) |-> ResolveR(cs.data, res.r[j].path, <<>>)]
@@ -89,7 +99,9 @@ WalkOK(cs, res, E) ==
   /\ (SameBag(RL, LocsOnly(E)) \/ (UnionDup(cs.path) /\ SameBag(RL, LocsOnly(Dedup(E)))))
 WalkDev(cs, g, res, E) ==
   IF res.p THEN Abn(cs, g, "Walk", res)
-  ELSE IF WalkOK(cs, res, E) THEN <<>> ELSE << Dev(cs, g, "Walk", "wrong-callbacks", "") >>
+  ELSE IF WalkOK(cs, res, E) THEN <<>>
+  ELSE IF HasSlice(cs.path) /\ WalkOK(cs, res, ESes(cs)) THEN << DevImpl(cs, g, "Walk") >>
+  ELSE << Dev(cs, g, "Walk", "wrong-callbacks", "") >>
 
 JudgeC05(cs) ==
   LET distinct == Distinct(cs.data) IN
